@@ -212,5 +212,103 @@ Proof.
     (repeat split; auto; try congruence; try discriminate);
     try (intros _; left; eexists; split; [reflexivity|reflexivity]);
     try (intros _; eexists; split; [reflexivity|reflexivity]).
-  intros _. right. auto.
+Qed.
+
+Definition sched_code_ok (c : cfg) (s' : state) (x : sched) : Prop :=
+  match x with
+  | NoSched => True
+  | Sched _ _ code => exists t, sel_type c s' = Some t /\ code = pdu_code t
+  end.
+
+Lemma start_effect25 c s s' x :
+  in_range c s -> handle_start_advertising c s = Some (s', x) ->
+  d_addr s' = d_addr s /\ d_valid s' = d_valid s /\ proposal s' = proposal s /\
+  selected s' = (if is_multi c then proposal s else selected s) /\
+  j_ok c s' /\ sched_code_ok c s' x.
+Proof.
+  intros R. unfold handle_start_advertising.
+  set (s1 := if is_multi c then set_selected s (proposal s) else s).
+  assert (E1 : d_addr s1 = d_addr s /\ d_valid s1 = d_valid s /\ proposal s1 = proposal s /\
+               selected s1 = (if is_multi c then proposal s else selected s)).
+  { unfold s1. destruct (is_multi c); psimpl; auto. }
+  assert (N1 : sel_type c s1 <> None).
+  { rewrite sel_type_at. destruct E1 as (_ & _ & _ & ->).
+    destruct (ty_at_some c (if is_multi c then proposal s else selected s)) as [t ->]; [|discriminate].
+    intros M. rewrite M. apply R; auto. }
+  destruct E1 as (A1 & A2 & A3 & A4).
+  destruct (fill_advertising_data c s1) as [ne s2] eqn:F. apply fill_effect in F.
+  destruct F as (F1 & F2 & F3 & F4 & F5 & F6). specialize (F5 N1).
+  destruct ne; cbn [negb].
+  2:{ intros H; inversion H; subst. cbn [sched_code_ok]. repeat split; auto; congruence. }
+  specialize (F6 eq_refl).
+  pose proof (begin_same25 c s2) as B. destruct (begin_of_advertising_events c s2) as [go s3]. cbn [snd] in B.
+  assert (J3 : j_ok c s3 /\ exists t, sel_type c s3 = Some t /\ buf_type s3 = pdu_code t).
+  { destruct B as (B1 & B2 & B3 & B4 & B5 & B6). unfold j_ok in *. rewrite !sel_type_at in *. rewrite B2, B3, B4, B6. auto. }
+  destruct go; cbn [negb].
+  2:{ intros H; inversion H; subst. destruct B as (B1 & B2 & B3 & B4 & B5 & B6). cbn [sched_code_ok].
+      repeat split; try congruence. apply J3. }
+  destruct (first_channel c s3) as [s4|] eqn:FC; [|discriminate].
+  apply first_channel_same25 in FC. destruct (same25_trans _ _ _ B FC) as (C1 & C2 & C3 & C4 & C5 & C6).
+  intros H; inversion H; subst. cbn [sched_code_ok].
+  destruct F6 as (t & T1 & T2).
+  assert (J4 : exists t, sel_type c s' = Some t /\ buf_type s' = pdu_code t).
+  { exists t. rewrite sel_type_at in *. rewrite C4, C6. auto. }
+  repeat split; try congruence.
+  all: try (left; auto; fail).
+  all: try (destruct J4 as (t' & U1 & U2); exists t'; auto; fail).
+Qed.
+
+Lemma timeout_effect25 c s s' x :
+  in_range c s -> j_ok c s -> handle_adv_timeout c s = Some (s', x) ->
+  d_addr s' = d_addr s /\ d_valid s' = d_valid s /\ proposal s' = proposal s /\
+  selected s' = (if is_multi c then proposal s else selected s) /\
+  j_ok c s' /\ sched_code_ok c s' x.
+Proof.
+  intros R J. unfold handle_adv_timeout.
+  set (fs := if is_multi c then _ else _).
+  assert (E1 : d_addr (snd fs) = d_addr s /\ d_valid (snd fs) = d_valid s /\ proposal (snd fs) = proposal s /\
+               selected (snd fs) = (if is_multi c then proposal s else selected s) /\
+               d_started (snd fs) = d_started s /\ buf_type (snd fs) = buf_type s /\
+               (fst fs = false -> selected (snd fs) = selected s)).
+  { unfold fs. destruct (is_multi c); [destruct (Nat.eqb (selected s) (proposal s)) eqn:Q|]; psimpl; repeat split; auto.
+    - apply Nat.eqb_eq in Q. auto.
+    - discriminate. }
+  destruct fs as [fill s1]. cbn [fst snd] in E1. destruct E1 as (A1 & A2 & A3 & A4 & A5 & A6 & A7).
+  assert (N1 : sel_type c s1 <> None).
+  { rewrite sel_type_at, A4.
+    destruct (ty_at_some c (if is_multi c then proposal s else selected s)) as [t ->]; [|discriminate].
+    intros M. rewrite M. apply R; auto. }
+  set (ns := if fill then _ else _).
+  assert (E2 : d_addr (snd ns) = d_addr s1 /\ d_valid (snd ns) = d_valid s1 /\ selected (snd ns) = selected s1 /\
+               proposal (snd ns) = proposal s1 /\ j_ok c (snd ns) /\
+               (fst ns = true -> exists t, sel_type c (snd ns) = Some t /\ buf_type (snd ns) = pdu_code t)).
+  { unfold ns. destruct fill.
+    - destruct (fill_advertising_data c s1) as [b s2] eqn:F. apply fill_effect in F. cbn [fst snd].
+      destruct F as (F1 & F2 & F3 & F4 & F5 & F6). repeat split; auto.
+    - cbn [fst snd]. specialize (A7 eq_refl).
+      assert (J1 : j_ok c s1).
+      { unfold j_ok in *. rewrite !sel_type_at in *. rewrite A7, A2, A5, A6. auto. }
+      repeat split; auto. unfold get_advertising_data. intros G.
+      destruct J1 as [J1|(J1 & J2 & J3)]; auto. rewrite J1, J2 in G. discriminate. }
+  destruct ns as [ne s2]. cbn [fst snd] in E2. destruct E2 as (F1 & F2 & F3 & F4 & F5 & F6).
+  destruct ne; cbn [negb].
+  2:{ intros H; inversion H; subst. cbn [sched_code_ok]. repeat split; auto; congruence. }
+  specialize (F6 eq_refl).
+  pose proof (continued_same25 c s2) as B. destruct (continued_advertising_events c s2) as [go s3]. cbn [snd] in B.
+  assert (J3 : j_ok c s3 /\ exists t, sel_type c s3 = Some t /\ buf_type s3 = pdu_code t).
+  { destruct B as (B1 & B2 & B3 & B4 & B5 & B6). unfold j_ok in *. rewrite !sel_type_at in *. rewrite B2, B3, B4, B6. auto. }
+  destruct go; cbn [negb].
+  2:{ intros H; inversion H; subst. destruct B as (B1 & B2 & B3 & B4 & B5 & B6). cbn [sched_code_ok].
+      repeat split; try congruence. apply J3. }
+  destruct (next_channel c s3) as [s4|] eqn:NC; [|discriminate].
+  apply next_channel_same25 in NC.
+  pose proof (next_adv_event_same25 c s4) as NA. destruct (next_adv_event c s4) as [d s5]. cbn [snd] in NA.
+  destruct (same25_trans _ _ _ (same25_trans _ _ _ B NC) NA) as (C1 & C2 & C3 & C4 & C5 & C6).
+  intros H; inversion H; subst. cbn [sched_code_ok].
+  destruct F6 as (t & T1 & T2).
+  assert (J4 : exists t, sel_type c s' = Some t /\ buf_type s' = pdu_code t).
+  { exists t. rewrite sel_type_at in *. rewrite C4, C6. auto. }
+  repeat split; try congruence.
+  all: try (left; auto; fail).
+  all: try (destruct J4 as (t' & U1 & U2); exists t'; auto; fail).
 Qed.
